@@ -133,7 +133,7 @@ pub struct WorkPt {
     pub horizon_l: f64,
 }
 pub struct Work;
-pub const W: f64 = 400.0;
+pub const W: f64 = 100.0;
 impl Check for Work {
     type P = WorkPt;
     fn name(&self) -> &'static str {
